@@ -23,6 +23,31 @@ class RecFile:
             hook(self.rec.events[-1])
         return self._f.write(data)
 
+    def writelines(self, lines):
+        for x in lines:
+            self.write(x)
+
+    def truncate(self, size=None):
+        """sizing the file is a write too: growing it puts zero bytes on disk where data is still to come"""
+        import os
+        with self.rec.lock:
+            self._f.flush()
+            cur = os.fstat(self._f.fileno()).st_size
+            n = self._f.tell() if size is None else int(size)
+            ev = {'seq': len(self.rec.events), 'h': self.hid, 'thread': threading.current_thread().name, 'truncate': n}
+            if n >= cur:
+                ev.update(off=cur, len=n - cur, data=bytes(n - cur))
+            else:
+                ev.update(off=n, len=0, data=b'', shrink=n)
+            self.rec.events.append(ev)
+            hook = self.rec.on_write
+        if hook:
+            hook(ev)
+        return self._f.truncate(n)
+
+    def __getattr__(self, name):        # anything else (fileno, readinto, ...) is the real file's business
+        return getattr(self.__dict__['_f'], name)
+
     def seek(self, *a):
         return self._f.seek(*a)
 
@@ -99,6 +124,9 @@ def apply_prefix(writes, k, cut=None):
         w['data'] = w['data'][:cut]
         seq.append(w)
     for w in seq:
+        if w.get('shrink') is not None:
+            del buf[w['shrink']:]
+            continue
         end = w['off'] + len(w['data'])
         if end > len(buf):
             buf.extend(bytes(end - len(buf)))
